@@ -1004,7 +1004,7 @@ func convToNumber(v interface{}) *decimal.Big {
 		return n
 	case string:
 		r, ok := newDecimalBig().SetString(n)
-		if !ok {
+		if !ok || (r.IsFinite() && !isDecimalText(n)) || (r.IsInf(0) && !isInfinityText(n)) {
 			return newDecimalBig().SetNaN(true)
 		}
 		return r
@@ -1021,6 +1021,56 @@ func convToNumber(v interface{}) *decimal.Big {
 			return newDecimalBig().SetNaN(true)
 		}
 	}
+}
+
+// isDecimalText reports whether s is a decimal numeral: an optional sign, digits with an optional decimal point
+// (at least one digit before or after it) and an optional exponent with at least one digit. SetString also
+// reads text without any digit (".") or with an empty exponent ("1e") as a number.
+func isDecimalText(s string) bool {
+	isDigit := func(c byte) bool { return c >= '0' && c <= '9' }
+	i, digits := 0, 0
+	if i < len(s) && (s[i] == '+' || s[i] == '-') {
+		i++
+	}
+	for ; i < len(s) && isDigit(s[i]); i++ {
+		digits++
+	}
+	if i < len(s) && s[i] == '.' {
+		for i++; i < len(s) && isDigit(s[i]); i++ {
+			digits++
+		}
+	}
+	if digits == 0 {
+		return false
+	}
+	if i < len(s) && (s[i] == 'e' || s[i] == 'E') {
+		i++
+		if i < len(s) && (s[i] == '+' || s[i] == '-') {
+			i++
+		}
+		start := i
+		for ; i < len(s) && isDigit(s[i]); i++ {
+		}
+		if i == start {
+			return false
+		}
+	}
+	return i == len(s)
+}
+
+// isInfinityText reports whether s is "inf" or "infinity" in any letter case, with an optional sign. SetString also
+// reads "infinity" followed by any other text as an infinity.
+func isInfinityText(s string) bool {
+	if len(s) > 0 && (s[0] == '+' || s[0] == '-') {
+		s = s[1:]
+	}
+	b := []byte(s)
+	for i, c := range b {
+		if 'A' <= c && c <= 'Z' {
+			b[i] = c + ('a' - 'A')
+		}
+	}
+	return string(b) == "inf" || string(b) == "infinity"
 }
 
 func (r *Runner) toBool(v interface{}) bool {
